@@ -268,8 +268,15 @@ func ToDate(ctx *expr.Context, input system.Collection, args ...expr.Expression)
 	case system.Date:
 		return system.Collection{value}, nil
 	case system.DateTime:
+		// keep the date part, whatever its precision ("2020T", "2020-02T", "2020-02-29T10:30Z")
 		dt := value.String()
-		result := system.MustParseDate(dt[:10])
+		if i := strings.IndexByte(dt, 'T'); i >= 0 {
+			dt = dt[:i]
+		}
+		result, err := system.ParseDate(dt)
+		if err != nil {
+			return system.Collection{}, nil
+		}
 		return system.Collection{result}, nil
 	case system.String:
 		result, err := system.ParseDate(string(value))
